@@ -551,6 +551,14 @@ def verify(prog, qual, build, spec, light=False, inline=None, name=None, max_pat
     res.explore_s = time.time() - t0
     for i, o in enumerate(outs):
         if o.kind == 'cut':
+            # a path that became infeasible (e.g. after assuming a callee precondition that is definitely
+            # violated) still carries the obligations recorded before that point: they must not be lost
+            for ob in o.path.obligations:
+                ob.path_id = i
+                res.obligations.append(ob)
+            if o.path.obligations:
+                o.path_id = i
+                res.loop_outcomes.append(o)
             continue
         if o.kind == 'loopcut':
             for ob in o.path.obligations:
